@@ -36,3 +36,72 @@ package version
 //@ ensures @C29 upgraded: result == nil ==> (ghost.vExists && ghost.vStored == version)
 //@ ensures @C29 same-version-untouched: (old(ghost.vExists) && old(ghost.vStored) == version) ==> (ghost.vExists && ghost.vStored == old(ghost.vStored))
 //@ assigns ghost.vExists, ghost.vStored
+
+// ---------------------------------------------------------------------------
+// C30 (version order): CompareVersionStrings compares the numeric components
+// of two version strings lexicographically, a missing component counting as 0.
+//
+// Components: regexp `[0-9]+` (library, ASSUMED): FindAllString returns a
+// freshly allocated slice whose length and elements are a function of the text
+// (for the one pattern this package uses): verCount(s) maximal digit runs,
+// verPart(s, k) the k-th of them. strconv.Atoi is a deterministic function of
+// its argument; for the literal "0" it is evaluated (0, nil).
+//
+// The postcondition names the deciding position with a ghost witness set by the
+// comparing loop: every component before ghost.cmpAt is equal; if cmpAt is a
+// position, the components differ there and the result says which is greater;
+// if all vN components are equal the result is true (a >= b).
+// ---------------------------------------------------------------------------
+//@ debugnames
+//@ ghost cmpAt int
+
+//@ define vcnt(s) uf("verCount", 0, s)
+//@ define vpart(s, k) uf("verPart", "", s, k)
+//@ define vnum(s, k) ite(k < vcnt(s), nth(0, strconv.Atoi(vpart(s, k))), 0)
+//@ define vN(a, b) ite(vcnt(a) >= vcnt(b), vcnt(a), vcnt(b))
+
+//@ extern regexp (*Regexp).FindAllString
+//@ fresh
+//@ forall j int
+//@ ensures len(result) == uf("verCount", 0, s) && uf("verCount", 0, s) >= 0
+//@ ensures (0 <= j && j < len(result)) ==> result[j] == uf("verPart", "", s, j)
+//@ assigns nothing
+//@ extern regexp MustCompile
+//@ assigns nothing
+
+//@ func CompareVersionStrings
+//@ property C30
+//@ forall j int
+// loop 0: pad b's components with "0" (a has more)
+//@ loop 0 invariant 0 <= i && i <= d && d == vcnt(a) - vcnt(b) && len(partsA) == vcnt(a) && len(partsB) == vcnt(b) + i
+//@ loop 0 invariant allocated(partsA) && allocated(partsB) && !sameStore(partsA, partsB)
+//@ loop 0 invariant (0 <= j && j < vcnt(a)) ==> partsA[j] == vpart(a, j)
+//@ loop 0 invariant (0 <= j && j < vcnt(b)) ==> partsB[j] == vpart(b, j)
+//@ loop 0 invariant (vcnt(b) <= j && j < len(partsB)) ==> partsB[j] == "0"
+// loop 1: pad a's components with "0" (b has more)
+//@ loop 1 invariant 0 <= i && i <= -d && d == vcnt(a) - vcnt(b) && len(partsB) == vcnt(b) && len(partsA) == vcnt(a) + i
+//@ loop 1 invariant allocated(partsA) && allocated(partsB) && !sameStore(partsA, partsB)
+//@ loop 1 invariant (0 <= j && j < vcnt(a)) ==> partsA[j] == vpart(a, j)
+//@ loop 1 invariant (0 <= j && j < vcnt(b)) ==> partsB[j] == vpart(b, j)
+//@ loop 1 invariant (vcnt(a) <= j && j < len(partsA)) ==> partsA[j] == "0"
+// loop 2: convert both padded lists
+//@ loop 2 invariant -1 <= rangeindex && rangeindex < len(partsA) && len(partsA) == vN(a, b) && len(partsB) == vN(a, b)
+//@ loop 2 invariant len(numericA) == rangeindex + 1 && len(numericB) == rangeindex + 1
+//@ loop 2 invariant allocated(numericA) && allocated(numericB) && (rangeindex >= 0 ==> !sameStore(numericA, numericB)) && (rangeindex < 0 ==> (numericA == nil && numericB == nil))
+//@ loop 2 invariant (0 <= j && j < vcnt(a)) ==> partsA[j] == vpart(a, j)
+//@ loop 2 invariant (vcnt(a) <= j && j < vN(a, b)) ==> partsA[j] == "0"
+//@ loop 2 invariant (0 <= j && j < vcnt(b)) ==> partsB[j] == vpart(b, j)
+//@ loop 2 invariant (vcnt(b) <= j && j < vN(a, b)) ==> partsB[j] == "0"
+//@ loop 2 invariant (0 <= j && j <= rangeindex) ==> (numericA[j] == vnum(a, j) && numericB[j] == vnum(b, j))
+//@ loop 2 instance j = rangeindex + 1
+// loop 3: compare
+//@ loop 3 invariant -1 <= rangeindex && rangeindex < len(numericA) && len(numericA) == vN(a, b) && len(numericB) == vN(a, b)
+//@ loop 3 invariant (0 <= j && j < vN(a, b)) ==> (numericA[j] == vnum(a, j) && numericB[j] == vnum(b, j))
+//@ loop 3 invariant (0 <= j && j <= rangeindex) ==> vnum(a, j) == vnum(b, j)
+//@ loop 3 instance j = rangeindex + 1
+//@ loop 3 sets ghost.cmpAt = rangeindex + 1
+//@ ensures @C30 decided-at-a-position-or-all-equal: result1 == nil ==> (0 <= ghost.cmpAt && ghost.cmpAt <= vN(a, b))
+//@ ensures @C30 equal-before: (result1 == nil && 0 <= j && j < ghost.cmpAt) ==> vnum(a, j) == vnum(b, j)
+//@ ensures @C30 first-difference-decides: (result1 == nil && ghost.cmpAt < vN(a, b)) ==> (vnum(a, ghost.cmpAt) != vnum(b, ghost.cmpAt) && (result0 <==> vnum(a, ghost.cmpAt) > vnum(b, ghost.cmpAt)))
+//@ ensures @C30 all-equal-is-not-lower: (result1 == nil && ghost.cmpAt == vN(a, b)) ==> result0
+//@ ensures @C30 error-says-false: result1 != nil ==> !result0
